@@ -14,11 +14,18 @@ type Fp = (u64, u64, usize, usize); // (hash sk, hash pk, len sk, len pk)
 fn fingerprint<V: Fv>(seed: [u8; 32]) -> Result<Fp, String> {
     match monitored(|| {
         let (sk, pk) = V::keygen(seed);
-        (V::sk_to_bytes(&sk), V::pk_to_bytes(&pk), V::basis(&sk))
+        (V::sk_to_bytes(&sk), V::pk_to_bytes(&pk), V::basis(&sk), V::leaves(&sk))
     }) {
-        Ok((s, p, b)) => {
-            // the fingerprint covers the serialised key and the in-memory basis (incl. G)
+        Ok((s, p, b, lv)) => {
+            // the fingerprint covers the serialised key, the in-memory basis (incl. G) and the
+            // bit patterns of the tree leaves (the whole SecretKey object)
             let mut all = s.clone();
+            for l in lv.iter() {
+                for c in l.iter() {
+                    all.extend_from_slice(&c.0.to_bits().to_le_bytes());
+                    all.extend_from_slice(&c.1.to_bits().to_le_bytes());
+                }
+            }
             for poly in b.iter() {
                 for c in poly {
                     all.extend_from_slice(&c.to_le_bytes());
